@@ -270,6 +270,9 @@ pub fn generate_w(stream: &str, seed: u64, n: usize, emit: &mut dyn FnMut(String
 		return generate_big(seed, n, emit);
 	}
 	let mut rng = rng_from(seed, stream);
+	// (a second generator for the families added later, so that the cases of the first keep
+	// their place in the sequence)
+	let mut rng2 = rng_from(seed, "ocfw-sink-recover");
 	for _ in 0..n {
 		let mut sg = SchemaGen::new(&mut rng, 8, false);
 		sg.decimals = false;
@@ -370,7 +373,33 @@ pub fn generate_w(stream: &str, seed: u64, n: usize, emit: &mut dyn FnMut(String
 				}
 			}
 		}
-		let sched: Vec<SinkResp> = if stream == "ocfw-sink" {
+		// a sink that fails ONCE, on a block, and then recovers - and a caller that carries on with
+		// every kind of call: the header is taken whole, the j-th call after it is refused (hard
+		// error, or zero bytes accepted), everything later is accepted; a `finish` followed by a
+		// pre-serialized push is placed somewhere in the history (each entry point must first
+		// write out a block that was closed but refused)
+		let recover = stream == "ocfw-sink" && rng2.gen_bool(0.35);
+		if recover {
+			let at = rng2.gen_range(1..ops.len().max(2)).min(ops.len() - 1);
+			let k = rng2.gen_range(1..3);
+			let mut bytes = vec![];
+			for _ in 0..k {
+				DatumGen { rng: &mut rng2, schema: &raw, fancy_layout: false, nonminimal: 0.0 }.gen(0, 0, &mut bytes);
+			}
+			ops.insert(at, WOp::Push(bytes, k));
+			ops.insert(at, WOp::Finish);
+			if rng2.gen_bool(0.5) {
+				approx = 65536;
+			}
+		}
+		let sched: Vec<SinkResp> = if recover {
+			let mut s = vec![SinkResp::Accept(1 << 24)];
+			for _ in 0..rng2.gen_range(0..3) {
+				s.push(SinkResp::Accept(1 << 24));
+			}
+			s.push(if rng2.gen_bool(0.7) { SinkResp::HardError } else { SinkResp::Accept(0) });
+			s
+		} else if stream == "ocfw-sink" {
 			let k = rng.gen_range(0..12);
 			(0..k)
 				.map(|_| match rng.gen_range(0..12) {
@@ -819,6 +848,59 @@ pub fn generate_r(stream: &str, seed: u64, n: usize, emit: &mut dyn FnMut(String
 				emit(w.s);
 				produced += 1;
 			}
+			continue;
+		}
+		if stream == "ocfr-damage" && files < 4 {
+			// a value the TARGET rejects in the middle of a block whose framing is intact (a string
+			// that is not UTF-8): the bytes of the rejected field are consumed all the same, so the
+			// slice back-end carries on with the following objects of the block from the right place
+			let fam = files;
+			let mut rng2 = rng_from(seed ^ fam as u64, "ocfr-damage-utf8");
+			files += 1;
+			let raw: RawSchema = if fam % 2 == 0 {
+				vec![RawNode { reg: Reg::String, logical: None }]
+			} else {
+				vec![
+					RawNode { reg: Reg::Record("R".into(), vec![("a".into(), 1), ("b".into(), 2), ("c".into(), 1)]), logical: None },
+					RawNode { reg: Reg::String, logical: None },
+					RawNode { reg: Reg::Long, logical: None },
+				]
+			};
+			let schema = build::to_schema_mut(&raw).freeze().expect("string schema");
+			let sync: Vec<u8> = (0..16).map(|_| rng2.gen()).collect();
+			let mut config = serde_avro_fast::ser::SerializerConfig::new(&schema);
+			let texts = ["first", "second-value", "third", "fourth!"];
+			let mut datums: Vec<Vec<u8>> = vec![];
+			for (i, s) in texts.iter().enumerate() {
+				let v = if fam % 2 == 0 {
+					SV::Str(s.to_string())
+				} else {
+					SV::Struct("R".into(), vec![("a".into(), SV::Str(s.to_string())), ("b".into(), SV::Int(IntTy::I64, crate::proto::BigI::Pos(40 + i as u128))), ("c".into(), SV::Str("ok".into()))])
+				};
+				datums.push(serde_avro_fast::to_datum_vec(&v, &mut config).unwrap());
+			}
+			let mut f = independent_file(&mut rng2, "null", schema.json(), &[], &sync);
+			let mut data = datums.concat();
+			// the second object's first string: its second byte becomes 0xFF
+			let at = datums[0].len() + 2 + (fam / 2);
+			data[at] = 0xff;
+			put_long(datums.len() as i64, &mut f);
+			put_long(data.len() as i64, &mut f);
+			f.extend_from_slice(&data);
+			f.extend_from_slice(&sync);
+			let backends = vec![Backend::Slice, Backend::Reader { last: 8192, sched: vec![], max_alloc: 512 * 1024 * 1024 }, Backend::Reader { last: 3, sched: vec![], max_alloc: 512 * 1024 * 1024 }];
+			let mut w = W::default();
+			w.t("ocfr").t("flip").t("null").schema(&raw).xs(schema.json()).hint(&Hint::Any).n(backends.len());
+			for b in &backends {
+				write_backend(&mut w, b);
+			}
+			w.xb(&f).n(datums.len());
+			for d in &datums {
+				w.xb(d);
+			}
+			w.n(0);
+			emit(w.s);
+			produced += 1;
 			continue;
 		}
 		let big = stream == "ocfr-big";
